@@ -526,7 +526,7 @@ def _generator_stubs(env, it, stub):
         ins = sig.get("inputs") or []
         if not (len(ins) == 2 and ins[0]["k"] == "uint" and ins[1]["k"] == "bool" and "Vec<u8>" in sig["output"].get("s", "")):
             continue
-        it0 = env.interp(max_steps=20000000)
+        it0 = env.interp(max_steps=2000000)
         outs0 = it0.call_body(gb, [usize(3), wbool(True)], State(), {})
         if len(outs0) != 1 or outs0[0].kind != "return":
             raise Undecided("generator %s not evaluated" % gb["path"])
@@ -555,7 +555,7 @@ def canon_eval(env, kind, which, n, window, stub=None):
     names = ["a[%d]" % p_ for p_ in window]
     space = Space(names)
     it = env.interp(max_paths=20000)
-    it.max_steps = 400000000
+    it.max_steps = 60000000      # needs 0.6M in the quick tier
     it.prune = True
     it.cmp_split = True
     it.split_all = True
